@@ -10,6 +10,7 @@
   `trace` is the list of commands the stream emitted, oldest first; hooks appear in it as `.hook h`.
 -/
 import MitmVerif.Lemmas.C03Mon
+import MitmVerif.Lemmas.C03Gram
 namespace MitmVerif.Props.C03
 open MitmVerif.C03
 
@@ -153,6 +154,52 @@ theorem closed_implies_outcome (l t : Nat) (evs : List Ev) (hb : (run l t evs).c
   · exact absurd h hne
 
 
+-- ------------------------------------------------------------------------------------------------
+-- HTTP/1: the grammar hypothesis discharged against the emitter model (Model/C03_Emit.lean)
+
+/-- **grammar holds**: every history that `Http1Server` / `Http1Client` / `HttpLayer` can deliver to one stream —
+    request headers once, then data*/end-of-message, protocol errors only after the headers and nothing but protocol
+    errors after one; response events only once the request went upstream; completions only for the command the
+    stream is blocked on — stays inside the event grammar, whatever is queued, replayed or left behind by escaping
+    exceptions. -/
+theorem grammar_holds (l t : Nat) (evs : List Ev) (h : Admissible l t evs) : (run l t evs).core.bad = false :=
+  grammar_holds_run l t evs h
+
+theorem requestheaders_first_http1 (l t : Nat) (evs : List Ev) (ha : Admissible l t evs)
+    (pre post : List Out) (h : Hook) (hsplit : (run l t evs).trace = pre ++ .hook h :: post) :
+    (h = .request ∨ h = .responseheaders ∨ h = .response ∨ h = .error → Out.hook .requestheaders ∈ pre) ∧
+    (h = .requestheaders → Out.hook .requestheaders ∉ pre) :=
+  requestheaders_first l t evs (grammar_holds l t evs ha) pre post h hsplit
+
+theorem request_at_most_once_http1 (l t : Nat) (evs : List Ev) (ha : Admissible l t evs)
+    (pre post : List Out) (hsplit : (run l t evs).trace = pre ++ .hook .request :: post) : Out.hook .request ∉ pre :=
+  request_at_most_once l t evs (grammar_holds l t evs ha) pre post hsplit
+
+theorem responseheaders_before_response_http1 (l t : Nat) (evs : List Ev) (ha : Admissible l t evs)
+    (pre post : List Out) (h : Hook) (hsplit : (run l t evs).trace = pre ++ .hook h :: post) :
+    (h = .responseheaders → Out.hook .responseheaders ∉ pre ∧ Out.hook .response ∉ pre) ∧
+    (h = .response → Out.hook .responseheaders ∈ pre ∧ Out.hook .response ∉ pre) :=
+  responseheaders_before_response l t evs (grammar_holds l t evs ha) pre post h hsplit
+
+theorem never_response_and_error_http1 (l t : Nat) (evs : List Ev) (ha : Admissible l t evs) :
+    ¬(Out.hook .response ∈ (run l t evs).trace ∧ Out.hook .error ∈ (run l t evs).trace) :=
+  never_response_and_error l t evs (grammar_holds l t evs ha)
+
+theorem unstreamed_request_before_responseheaders_http1 (l t : Nat) (evs : List Ev) (ha : Admissible l t evs)
+    (hns : Out.streamStart ∉ (run l t evs).trace)
+    (pre post : List Out) (hsplit : (run l t evs).trace = pre ++ .hook .responseheaders :: post) :
+    Out.hook .request ∈ pre :=
+  unstreamed_request_before_responseheaders l t evs (grammar_holds l t evs ha) hns pre post hsplit
+
+theorem closed_implies_outcome_http1 (l t : Nat) (evs : List Ev) (ha : Admissible l t evs)
+    (hset : (run l t evs).settled = true)
+    (hrh : Out.hook .requestheaders ∈ (run l t evs).trace)
+    (hC : (run l t evs).core.isConnect = false) (hpt : (run l t evs).core.pt = false)
+    (hW : (run l t evs).core.websocket = false) :
+    (Out.hook .response ∈ (run l t evs).trace ↔ Out.hook .error ∉ (run l t evs).trace) ∧
+    (run l t evs).core.live = false :=
+  closed_implies_outcome l t evs (grammar_holds l t evs ha) hset hrh hC hpt hW
+
 -- non-vacuity: the hypotheses are satisfiable by real histories, and the model is not constant ------------------
 
 /-- GET, unstreamed, 4-byte response, then the exchange is complete (stream dropped) -/
@@ -185,5 +232,11 @@ example : (run 0 10 exStream).core.bad = false ∧ Out.streamStart ∈ (run 0 10
 
 /-- the grammar monitor does reject something: a response event for a stream that never went upstream -/
 example : (run 0 0 [.reqHeaders true 0 .norm false, .hookDone .requestheaders .pass, .respEOM]).core.bad = true := by decide
+
+/-- the three example histories are ones the emitter delivers; the rejected one is not -/
+example : Admissible 0 0 exOK ∧ Admissible 0 0 exKill ∧ Admissible 0 10 exStream := by
+  simp only [Admissible]; decide
+example : ¬Admissible 0 0 [.reqHeaders true 0 .norm false, .hookDone .requestheaders .pass, .respEOM] := by
+  simp only [Admissible]; decide
 
 end MitmVerif.Props.C03
